@@ -1,5 +1,6 @@
 SPECIFICATION Spec
 CONSTANTS MaxA = 3 MaxB = 3 MaxFan = 2
   AsyncModes = {FALSE}
+  Repeats = FALSE Cuts = FALSE
 INVARIANT Emitted_
 CHECK_DEADLOCK FALSE
